@@ -72,3 +72,16 @@ Definition cx_fw : fworld :=
                   (lit "t", lit "current", lit "1.0") ] |}.
 
 Definition cx_order : list str := [lit "c"; lit "b"; lit "a"; lit "d"; lit "t"].
+
+(* D36 (fixed): an optional dependency that defines an alias and then fails.
+     x 1.0   addAlias(run_x, echo x)  envPrepend(PATH, /s/x/1.0/bin)  setupRequired(missing)
+     t 1.0   setupOptional(x)  envPrepend(PATH, /s/t/1.0/bin) *)
+Definition ax_world : world :=
+  [ {| p_name := lit "x"; p_version := lit "1.0"; p_dir := lit "/s/x/1.0";
+       p_actions := [AAlias (lit "run_x") (lit "echo x"); APath false (lit "PATH") (lit "/s/x/1.0/bin") c_colon;
+                     ASetup false (lit "missing") false] |};
+    {| p_name := lit "t"; p_version := lit "1.0"; p_dir := lit "/s/t/1.0";
+       p_actions := [ASetup true (lit "x") false; APath false (lit "PATH") (lit "/s/t/1.0/bin") c_colon] |} ].
+Definition ax_order : list str := [lit "missing"; lit "x"; lit "t"].
+(* t 1.0, x 1.0, missing not found *)
+Definition ax_ds : list decision := [Some (lit "1.0"); Some (lit "1.0"); None].
